@@ -25,7 +25,8 @@ R1 == Obj([src |-> Obj([a |-> IntV(1), b |-> Arr(<<IntV(3), IntV(1), IntV(2)>>),
                         s |-> Str(<<97, 98>>), f |-> Flt(3, 1), t |-> Bool(TRUE), n |-> Null,
                         l |-> Arr(<<Obj([k |-> IntV(2), v |-> S1(112)]), Obj([k |-> IntV(1), v |-> S1(113)])>>),
                         ll |-> Arr(<<Arr(<<IntV(3), IntV(1), IntV(2)>>), Arr(<<IntV(2), IntV(1)>>)>>),
-                        sel |-> S1(97), keys |-> Arr(<<S1(97), S1(102), S1(97)>>), o |-> Obj([a |-> IntV(1), c |-> Null])])])
+                        sel |-> S1(97), keys |-> Arr(<<S1(97), S1(102), S1(97)>>), o |-> Obj([a |-> IntV(1), c |-> Null]),
+                        zf |-> Flt(0, 0), zi |-> IntV(0), tmp |-> IntV(1)])])
 R2 == Obj([src |-> Arr(<<IntV(1), S1(97), Arr(<<IntV(2)>>)>>), asm |-> Obj([x |-> IntV(1)])])
 R3 == Obj([src |-> Obj([k |-> IntV(5), x |-> IntV(7)])])
 \* the second root of every case (same shape, other values): the SAME Plan object is executed on it after the first root
@@ -33,7 +34,8 @@ R1b == Obj([src |-> Obj([a |-> IntV(5), b |-> Arr(<<IntV(9), IntV(7), IntV(8)>>)
                          s |-> Str(<<99, 100>>), f |-> Flt(5, 1), t |-> Bool(FALSE), n |-> Null,
                          l |-> Arr(<<Obj([k |-> IntV(1), v |-> S1(113)]), Obj([k |-> IntV(3), v |-> S1(114)])>>),
                          ll |-> Arr(<<Arr(<<IntV(2), IntV(9), IntV(4)>>), Arr(<<IntV(1), IntV(0)>>)>>),
-                         sel |-> S1(102), keys |-> Arr(<<S1(102), S1(97)>>), o |-> Obj([a |-> IntV(1), c |-> IntV(2)])])])
+                         sel |-> S1(102), keys |-> Arr(<<S1(102), S1(97)>>), o |-> Obj([a |-> IntV(1), c |-> IntV(2)]),
+                         zf |-> Flt(0, 0), zi |-> IntV(0), tmp |-> IntV(2)])])
 R2b == Obj([src |-> Arr(<<IntV(4), S1(98), Arr(<<IntV(6), IntV(5)>>)>>), asm |-> Obj([x |-> IntV(2)])])
 R3b == Obj([src |-> Obj([k |-> IntV(6), x |-> IntV(1)])])
 
@@ -55,16 +57,24 @@ Tuples(K, n) == CASE n = 0 -> {<<>>}
                   [] n = 3 -> {<<a, b, d>> : a \in K, b \in K, d \in K}
                   [] n = 4 -> {<<a, b, d, e>> : a \in K, b \in K, d \in K, e \in K}
 Reps(K) == {KindRep[x] : x \in K}
-Matrix012 == {Call(f, t) : f \in Fns, t \in Tuples(Reps(Kinds10), 0) \cup Tuples(Reps(Kinds10), 1) \cup Tuples(Reps(Kinds10), 2)}
+Matrix012 == {Call(f, t) : f \in Fns, t \in Tuples(Reps(Kinds10), 0) \cup Tuples(Reps(Kinds10), 1)}
+             \cup {Call(f, t) : f \in {x \in Fns : Big \/ ~(Canon(x) \in Specified /\ Canon(x) = x)
+                                                          \/ Canon(x) \in {"each", "at", "root", "set", "setall", "del", "delall", "cond", "sort", "quote", "asm"}},
+                            t \in Tuples(Reps(Kinds10), 2)}
+             \* (quick: arity 2 of the canonical specified functions is the value matrix values2, which has every kind and more)
 Matrix3 == {Call(f, t) : f \in Fns, t \in Tuples(Reps(Kinds5), 3)}
 Matrix4 == {Call(f, t) : f \in Fns, t \in Tuples(Reps(Kinds3), 4)}
 
 \* ------------------------------------------------------------------ value matrix for the specified functions
-AtomsQ == {Null, Bool(TRUE), IntV(0), IntV(3), Flt(3, 1), Flt(2, 0),
-           Str(<<>>), Str(<<97, 98>>), Arr(<<>>), Arr(<<IntV(3), IntV(1), IntV(2)>>), Obj(<<>>), Obj([a |-> IntV(1)]),
-           P(FALSE, <<C("src"), C("a")>>), P(FALSE, <<C("src"), C("s")>>), P(FALSE, <<C("src"), C("zz")>>),
-           Call("sum", <<IntV(1), IntV(2)>>)}
-AtomsB == AtomsQ \cup {Bool(FALSE), S1(97), IntV(1), IntV(-1), Flt(1, 1), Flt(0, 0), Str(<<>>), S1(98), Arr(<<>>), P(FALSE, <<C("src"), C("f")>>),
+\* The cell table is generated, not hand-picked: one representative per argument-type class (TypeReps) and the special
+\* values of every class (Special: 0, 0.0, -0.0, negative int / float, empty string / list / map, null, a missing path).
+NegZero == [t |-> "flt", q |-> <<0, 0>>, nz |-> TRUE]          \* the literal -0.0
+TypeReps == {Bool(TRUE), IntV(3), Flt(3, 1), Str(<<97, 98>>), Arr(<<IntV(3), IntV(1), IntV(2)>>), Obj([a |-> IntV(1)]),
+             P(FALSE, <<C("src"), C("a")>>), P(TRUE, <<C("src"), C("s")>>), Call("sum", <<IntV(1), IntV(2)>>)}
+Special == {IntV(0), Flt(0, 0), NegZero, IntV(-2), Flt(-1, 1), Str(<<>>), Arr(<<>>), Obj(<<>>), Null, P(FALSE, <<C("src"), C("zz")>>)}
+NumSpecial == {IntV(0), Flt(0, 0), NegZero, IntV(-2), Flt(-1, 1)}
+AtomsQ == TypeReps \cup Special
+AtomsB == AtomsQ \cup {Flt(2, 0), P(FALSE, <<C("src"), C("s")>>), P(FALSE, <<C("src"), C("zf")>>), Bool(FALSE), S1(97), IntV(1), IntV(-1), Flt(1, 1), Flt(0, 0), Str(<<>>), S1(98), Arr(<<>>), P(FALSE, <<C("src"), C("f")>>),
            P(FALSE, <<C("src"), C("b")>>), Call("list", <<IntV(1), S1(97)>>), IntV(2), IntV(4), Flt(-3, 2), Flt(4, 0), Arr(<<S1(98), S1(97)>>), Arr(<<IntV(1), Flt(2, 0)>>),
            Arr(<<IntV(1), IntV(2)>>), Obj(<<>>), Obj([a |-> Flt(1, 0)]), Str(<<98, 97>>),
            P(FALSE, <<C("src"), C("b"), N(1)>>), P(FALSE, <<C("src"), C("b"), N(-1)>>), P(TRUE, <<C("src"), C("c")>>),
@@ -74,7 +84,13 @@ AtomsB == AtomsQ \cup {Bool(FALSE), S1(97), IntV(1), IntV(-1), Flt(1, 1), Flt(0,
 Atoms == IF Big THEN AtomsB ELSE AtomsQ
 SpecFns == {f \in Fns : Canon(f) \in Specified /\ (Big \/ Canon(f) = f)}   \* quick: canonical names (aliases are in the kind matrix)
 Values1 == {Call(f, <<a>>) : f \in Fns, a \in Atoms}
-Values2 == {Call(f, <<a, b>>) : f \in SpecFns, a \in Atoms, b \in Atoms}
+\* quick: (rep, rep), (special, rep), (rep, special) and the numeric specials among themselves; thorough: all pairs of AtomsB
+Pairs2 == IF Big THEN AtomsB \X AtomsB
+          ELSE (TypeReps \X TypeReps) \cup (Special \X TypeReps) \cup (TypeReps \X Special) \cup (NumSpecial \X NumSpecial)
+\* functions whose first argument must be a path / clause / body are exercised by their own families (mutate, computed, forms,
+\* scratch, retval) and by the kind matrix; the value matrix takes the functions that work on evaluated values
+ValFns == {f \in SpecFns : Big \/ Canon(f) \notin {"each", "at", "root", "set", "setall", "del", "delall", "cond", "sort", "quote", "asm"}}
+Values2 == {Call(f, <<pr[1], pr[2]>>) : f \in ValFns, pr \in Pairs2}
 Nums == {IntV(0), IntV(1), IntV(3), IntV(-1), Flt(1, 1), Flt(3, 1), Flt(2, 0), S1(97), S1(98), Null, Bool(TRUE),
          P(FALSE, <<C("src"), C("a")>>), Call("sum", <<IntV(1), IntV(2)>>)}
 Values3 == {Call(f, <<a, b, c>>) : f \in {"lt", "<=", "gt", "gte", "sum", "-", "product", "/", "equal", "neq", "and", "or", "list", "asm"},
@@ -135,7 +151,7 @@ Refs == {Call("get", <<P(FALSE, <<C("src"), C("b")>>)>>), Call("get", <<P(TRUE, 
          \cup (IF Big THEN {Call("nth", <<Call("getall", <<P(FALSE, <<C("src"), C("b")>>)>>), IntV(0)>>), Call("get", <<P(FALSE, <<C("keys")>>), P(FALSE, <<C("src")>>)>>)} ELSE {})
 RefExtra == {P(TRUE, <<>>), P(TRUE, <<C("k")>>), IntV(0)}
 RefPlans == {Call(f, <<r>>) : f \in Fns, r \in Refs} \cup {Call(f, <<r, x>>) : f \in Fns, r \in Refs, x \in RefExtra}
-            \cup {Call(f, <<x, r>>) : f \in Fns, r \in Refs, x \in {Arr(<<IntV(5)>>)}}
+            \cup (IF Big THEN {Call(f, <<x, r>>) : f \in Fns, r \in Refs, x \in {Arr(<<IntV(5)>>)}} ELSE {})
 
 \* ------------------------------------------------------------------ computed, data-dependent paths: a path argument produced by a
 \* nested call (root / at over strings read from the data), used by get/getall/set/setall and offered to every function,
@@ -195,6 +211,47 @@ NestPlans == {Call("each", <<l, Call("asm", <<Call("set", <<P(TRUE, <<C("asm")>>
              \cup {Call("set", <<P(FALSE, <<C("asm")>>), Call("each", <<Arr(<<IntV(1), IntV(2), IntV(3)>>), Call("asm", <<Call("set", <<P(TRUE, <<C("asm")>>), nl[1]>>),
                                   Call("set", <<P(TRUE, <<C("asm")>> \o nl[2]), Call("sum", <<P(TRUE, <<C("asm")>> \o nl[2]), LSrc>>)>>)>>)>>)>>) : nl \in NestLits}
 
+\* ------------------------------------------------------------------ arithmetic: 0, 0.0, -0.0, negatives in EVERY position of int, float
+\* and mixed chains (arity 2 and 3), literal and read from the data
+ArithAtoms3 == {IntV(0), Flt(0, 0), NegZero, IntV(4), Flt(3, 1), IntV(-2)}
+ArithAtoms2 == ArithAtoms3 \cup {Flt(-1, 1), IntV(3), Flt(1, 2), P(FALSE, <<C("src"), C("zf")>>), P(FALSE, <<C("src"), C("zi")>>), P(FALSE, <<C("src"), C("f")>>)}
+ArithFns == {f \in Fns : Canon(f) \in {"sum", "dif", "product", "quotient"} /\ (Big \/ Canon(f) = f)}
+ArithPlans == {Call(f, <<a, b>>) : f \in ArithFns \cup {"mod"}, a \in ArithAtoms2, b \in ArithAtoms2}
+              \cup {Call(f, <<a, b, d>>) : f \in ArithFns, a \in ArithAtoms3, b \in ArithAtoms3, d \in ArithAtoms3}
+              \cup {Call(f, <<a>>) : f \in ArithFns \cup {"mod"}, a \in ArithAtoms2}
+
+\* ------------------------------------------------------------------ comparison chains of 3 and 4 arguments, every order: among them the
+\* non-monotone ones whose members all are <= / >= the FIRST ("compare with predecessor" vs "compare with first"),
+\* for ints, floats, mixed numbers and strings (the types the descriptions list)
+CmpFns == {f \in Fns : Canon(f) \in {"lt", "lte", "gt", "gte", "equal", "neq"} /\ (Big \/ Canon(f) = f)}
+Cube(S) == {<<a, b, d>> : a \in S, b \in S, d \in S}
+Quad(S) == {<<a, b, d, e>> : a \in S, b \in S, d \in S, e \in S}
+CmpTuples == Cube({IntV(1), IntV(2), IntV(3)}) \cup Cube({Flt(1, 1), Flt(3, 1), Flt(5, 1)}) \cup Cube({IntV(1), Flt(3, 1), IntV(2)})
+             \cup Cube({S1(97), S1(107), S1(109)}) \cup (IF Big THEN Quad({IntV(1), IntV(2), IntV(3)}) ELSE {}) \cup Quad({S1(97), S1(107), S1(109)})
+             \cup Cube({P(FALSE, <<C("src"), C("a")>>), IntV(2), P(FALSE, <<C("src"), C("f")>>)})
+CmpPlans == {Call(f, t) : f \in CmpFns, t \in CmpTuples}
+
+\* ------------------------------------------------------------------ return values: every function in the MIDDLE of an asm sequence whose
+\* local value @ is a distinguishable literal (not the root), followed by a step that consumes @
+Keep == Obj([keep |-> IntV(7), tmp |-> IntV(1), lst |-> Arr(<<IntV(3), IntV(1), IntV(2)>>), s |-> Str(<<97, 98>>)])
+LK(x) == P(TRUE, <<C(x)>>)
+MidTuples == {<<>>, <<LK("keep")>>, <<LK("keep"), IntV(2)>>, <<LK("lst")>>, <<LK("lst"), IntV(0)>>}
+             \cup (IF Big THEN {<<LK("s")>>, <<LK("keep"), LK("keep"), IntV(9)>>, <<LK("lst"), P(TRUE, <<>>)>>} ELSE {})
+Mids == {Call(f, t) : f \in Fns, t \in MidTuples}
+        \cup {Call("del", <<P(FALSE, <<C("src"), C("tmp")>>)>>), Call("delall", <<P(FALSE, <<C("src"), C("tmp")>>)>>), Call("del", <<LK("tmp")>>), Call("delall", <<LK("tmp")>>),
+              Call("set", <<P(FALSE, <<C("src"), C("tmp")>>), IntV(5)>>), Call("setall", <<P(FALSE, <<C("src"), C("tmp")>>), IntV(5)>>), Call("set", <<LK("x"), IntV(5)>>),
+              Call("setall", <<LK("x"), IntV(5)>>), Call("set", <<P(FALSE, <<C("asm"), C("q")>>), LK("keep")>>), Call("del", <<P(FALSE, <<C("src"), C("zz")>>)>>),
+              Call("cond", <<Pair(Bool(TRUE), Call("del", <<P(FALSE, <<C("src"), C("tmp")>>)>>))>>), Call("asm", <<Call("del", <<P(FALSE, <<C("src"), C("tmp")>>)>>)>>),
+              Call("each", <<Arr(<<IntV(1), IntV(2)>>), Call("asm", <<Call("del", <<P(FALSE, <<C("src"), C("tmp")>>)>>), Call("set", <<P(TRUE, <<C("asm")>>), P(TRUE, <<C("src")>>)>>)>>)>>)}
+Consumers == {Call("set", <<P(FALSE, <<C("asm"), C("kept")>>), LK("keep")>>), Call("set", <<P(FALSE, <<C("asm"), C("r")>>), P(TRUE, <<>>)>>)}
+RetPlans == {Call("asm", <<Keep, m, u>>) : m \in Mids, u \in Consumers}
+            \cup {Call("each", <<Arr(<<IntV(1), IntV(2), IntV(3)>>), Call("asm", <<m, Call("set", <<P(TRUE, <<C("asm")>>), P(TRUE, <<C("src")>>)>>)>>)>>) :
+                    m \in {x \in Mids : x.fn \in {"del", "delall", "set", "setall"}}}
+
+\* ------------------------------------------------------------------ arity 3+: a special value in each position of the variadic functions
+Var3Plans == {Call(f, t) : f \in {x \in Fns : Canon(x) \in {"and", "or", "list", "equal", "neq", "asm", "sum"} /\ Canon(x) = x},
+                           t \in UNION {{<<s, r, r>>, <<r, s, r>>, <<r, r, s>>, <<r, s, r, r>>} : s \in Special \cup {Bool(FALSE)}, r \in {Bool(TRUE), IntV(3)}}}
+
 \* ------------------------------------------------------------------ families
 Both(ps, r) == {Case(Wrapped(p), r, FALSE) : p \in ps} \cup {Case(p, r, FALSE) : p \in ps}
 Cases ==
@@ -211,6 +268,10 @@ Cases ==
     [] Part = "eqcont" -> {Case(Wrapped(p), R1, FALSE) : p \in EqPlans}
     [] Part = "scratch" -> Both(ScratchPlans, R1)
     [] Part = "nestlit" -> Both(NestPlans, R1)
+    [] Part = "arith" -> {Case(Wrapped(p), R1, FALSE) : p \in ArithPlans}
+    [] Part = "cmp" -> {Case(Wrapped(p), R1, FALSE) : p \in CmpPlans}
+    [] Part = "retval" -> {Case(p, R1, b) : p \in RetPlans, b \in (IF Big THEN BOOLEAN ELSE {FALSE})}
+    [] Part = "var3" -> {Case(Wrapped(p), R1, FALSE) : p \in Var3Plans}
     [] Part = "forms" -> Both(CondPlans \cup SortPlans \cup EachPlans, R1) \cup Both(SortPlans, R3)
     [] OTHER -> {}
 
